@@ -133,3 +133,34 @@ Lemma table_objects_history_pending : forall auth ops s p,
   (forall op, In op ops -> signer auth op <> Some p) ->
   forall tx e, pend s tx = Some (p, e) -> pend (orun Gen.C03.code_shape ops s) tx = Some (p, e).
 Proof. intros. eapply objects_history_pending_lemma; eauto. Qed.
+
+(** * Third round: the CosmWasm custom-message bindings (creator := the dispatching contract) *)
+
+Lemma wasm_table_closed_lemma : forallb spec_ok Gen.C03.wasm_specs = true.
+Proof. vm_compute. reflexivity. Qed.
+
+Lemma wasm_table_signed_by_contract : forallb (fun s => is_sign_metadata s && ms_has_meta s) Gen.C03.wasm_specs = true.
+Proof. vm_compute. reflexivity. Qed.
+
+Lemma wasm_no_cross_principal_effect_lemma : forall spec, In spec Gen.C03.wasm_specs ->
+  forall auth g m s s', deliver auth g spec m s = Done s' ->
+  forall p, get (owned s') p <> get (owned s) p -> authorised auth g spec m p.
+Proof.
+  intros spec Hin auth g m s s' Hd p Hch.
+  eapply no_cross_principal_effect_lemma; eauto.
+  pose proof wasm_table_closed_lemma as H. eapply forallb_forall in H; eauto.
+Qed.
+
+(** A dispatch carries no external signature and is authenticated as its contract only: whatever
+    held in a name changes, the name is the contract's. *)
+Lemma wasm_dispatch_only_contract_lemma : forall spec, In spec Gen.C03.wasm_specs ->
+  forall auth g m s s', m_ext m = [] -> deliver auth g spec m s = Done s' ->
+  forall p, get (owned s') p <> get (owned s) p -> p = m_creator m.
+Proof.
+  intros spec Hin auth g m s s' Hext Hd p Hch.
+  destruct (wasm_no_cross_principal_effect_lemma spec Hin auth g m s s' Hd p Hch) as [[H _] | [[_ [H _]] | H]].
+  - exact H.
+  - pose proof wasm_table_signed_by_contract as Hs. eapply forallb_forall in Hs; eauto.
+    apply andb_true_iff in Hs as [Hs _]. unfold is_sign_metadata in Hs. rewrite H in Hs. discriminate.
+  - rewrite Hext in H. destruct H.
+Qed.
